@@ -646,17 +646,17 @@ def check_case(ctx, n, cls, lb, events, model_out, kind):
     trace, w = run_impl(n, cls, lb, events)
     case = dict(n=n, cls=cls, lb=lb, events=events)
     bad = False
+    mismatch_reported = False
     for i, (line, findings) in enumerate(trace):
         for sig, exp, obs, what in findings:
             if report(ctx, sig, n, cls, lb, events[:i], exp, obs, what):
                 bad = True
-        if model_out is not None and i < len(model_out) and model_out[i] != line:
+        if model_out is not None and not mismatch_reported and i < len(model_out) and model_out[i] != line:
             ctx.violation(dict(call='model-mismatch', event=(events[i - 1][0] if i else 'init')),
                           dict(n=n, cls=cls, lb=lb, events=events[:i]), model_out[i], line,
                           'Coq model and implementation disagree after this event list', kind='correspondence',
                           corr='coq/rt/Sched.v vs bqskit/runtime/base.py, detached.py')
-            bad = True
-            break
+            bad = mismatch_reported = True
     return bad, w
 
 
@@ -867,17 +867,32 @@ def arith_cases(ctx, nq):
     from bqskit.runtime.message import RuntimeMessage as M
     import bqskit.runtime.base as base
     rng = ctx.rng
-    lines, impl, keys = [], [], []
+    lines, impl, keys, refs = [], [], [], []
+    from fractions import Fraction
+    import math
 
-    def add(line, val, key):
+    def add(line, val, key, ref=None):
+        """ref: the textbook value (string) or a predicate on the implementation's answer"""
         lines.append(line)
         impl.append(val)
         keys.append(key)
+        refs.append(ref)
+
+    def fdiv(a, b):
+        return math.floor(Fraction(a, b))
+
+    def ref_gnts(cache, r):
+        if r is None:
+            return [cache, sum(c for _, c in cache)]
+        for i, (a, _) in enumerate(cache):
+            if a == r:
+                return [cache[i:], sum(c for _, c in cache[i + 1:])]
+        return 'RuntimeError'
 
     def exn(f):
         try:
             return f()
-        except (RuntimeError, AssertionError, IndexError, ZeroDivisionError) as ex:
+        except Exception as ex:  # noqa: any exception is an observable answer
             return type(ex).__name__
 
     for _ in range(nq):
@@ -892,7 +907,8 @@ def arith_cases(ctx, nq):
             e.submit_cache = [(a, c) for a, c in cache]
             v = e.get_num_of_tasks_sent_since(r)
             return fmt([[list(x) for x in e.submit_cache], v])
-        add(f'gnts {fmt(cache)} {fmt(r)}', exn(gnts), ('gnts', tuple(map(tuple, cache)), r))
+        rg = ref_gnts(cache, r)
+        add(f'gnts {fmt(cache)} {fmt(r)}', exn(gnts), ('gnts', tuple(map(tuple, cache)), r), fmt(rg))
         ei, tot = rng.randint(0, 3), rng.randint(1, 4)
         si, nn = rng.randint(0, tot), rng.randint(0, 3)
 
@@ -906,7 +922,12 @@ def arith_cases(ctx, nq):
             s.num_idle_workers, s.total_workers = si, tot
             s.handle_waiting(c, nn, r)
             return fmt([[list(x) for x in e.submit_cache], e.num_idle_workers, s.num_idle_workers])
-        add(f'hw {fmt(cache)} {ei} {si} {tot} {nn} {fmt(r)}', exn(hw), ('hw', tuple(map(tuple, cache)), ei, si, tot, nn, r))
+        if rg == 'RuntimeError':
+            rh = rg
+        else:
+            adj = max(nn - rg[1], 0)
+            rh = fmt([rg[0], adj, si + adj - ei]) if 0 <= si + adj - ei <= tot else 'AssertionError'
+        add(f'hw {fmt(cache)} {ei} {si} {tot} {nn} {fmt(r)}', exn(hw), ('hw', tuple(map(tuple, cache)), ei, si, tot, nn, r), rh)
         # routing
         lb = rng.choice([0, 5, 1000])
         st = rng.choice([1, 1, 2, 7, 0]) if rng.random() < 0.9 else rng.choice([-1, -3])
@@ -915,10 +936,16 @@ def arith_cases(ctx, nq):
 
         def node():
             s = ServerBase.__new__(ServerBase)
-            s.lower_id_bound, s.step_size, s.employees = lb, st, list(range(ln))
+            s.lower_id_bound, s.upper_id_bound, s.step_size, s.employees = lb, lb + 2 ** 20, st, list(range(ln))
             return s
-        add(f'mine {lb} {st} {ln} {wid}', exn(lambda: fmt(bool(node().is_my_worker(wid)))), ('mine', lb, st, ln, wid))
-        add(f'resp {lb} {st} {ln} {wid}', exn(lambda: fmt(node().get_employee_responsible_for(wid))), ('resp', lb, st, ln, wid))
+        if st == 0:
+            rm = rr_ = 'ZeroDivisionError'
+        else:
+            q = fdiv(wid - lb, st)
+            rm = fmt(0 <= q < ln)
+            rr_ = fmt(q % ln) if -ln <= q < ln else 'IndexError'
+        add(f'mine {lb} {st} {ln} {wid}', exn(lambda: fmt(bool(node().is_my_worker(wid)))), ('mine', lb, st, ln, wid), rm)
+        add(f'resp {lb} {st} {ln} {wid}', exn(lambda: fmt(node().get_employee_responsible_for(wid))), ('resp', lb, st, ln, wid), rr_)
         ub = lb + rng.choice([0, 3, 10, 1000, 2 ** 30])
         d = rng.randint(0, 5)
         i = rng.randint(0, max(d - 1, 0))
@@ -942,7 +969,12 @@ def arith_cases(ctx, nq):
             m.update_upstream_idle_workers = lambda: acts.append(['update_upstream'])
             m.send_up_or_schedule_tasks(tl)
             return fmt(acts)
-        add(f'suos {ni} {fmt(tl)}', exn(suos), ('suos', ni, len(tl)))
+        def suos_ref(upd, ni=ni, tl=tl):
+            return fmt(([['put', -7, 'UPDATE', upd], ['schedule', tl[:ni]], ['update_upstream']] if ni != 0 else []) +
+                       ([['put', -7, 'SUBMIT_BATCH', tl[ni:]]] if len(tl) > ni else []))
+        # UPDATE should announce the number of tasks kept; the code as it is announces the idle count (observation D14)
+        add(f'suos {ni} {fmt(tl)}', exn(suos), ('suos', ni, len(tl)),
+            (lambda ans, a=suos_ref(min(ni, len(tl))), b=suos_ref(ni): 'D14' if (ans == b and a != b) else ans == a))
         last = rng.randint(0, 4)
         rr = rng.choice([None, 3])
 
@@ -952,7 +984,7 @@ def arith_cases(ctx, nq):
             m.num_idle_workers, m.last_num_idle_sent_up, m.most_recent_read_submit = ni, last, rr
             m.update_upstream_idle_workers()
             return fmt([m.last_num_idle_sent_up, [['put', -7, x[1].name, list(x[2])] for x in m.outgoing.items]])
-        add(f'uup {ni} {last} {fmt(rr)}', exn(uup), ('uup', ni, last, rr))
+        add(f'uup {ni} {last} {fmt(rr)}', exn(uup), ('uup', ni, last, rr), fmt([ni, [['put', -7, 'WAITING', [ni, rr]]]] if ni != last else [last, []]))
         # assign_tasks on integers (tasks only need identity here)
         ne = rng.randint(0, 4)
         es = [[rng.choice([1, 1, 2, 3]), rng.randint(0, 3), 0] for _ in range(ne)]
@@ -980,9 +1012,251 @@ def arith_cases(ctx, nq):
             finally:
                 base.random = old
             return fmt(a)
-        add(f'assign {fmt(es)} {fmt(list(range(1, nt + 1)))} {fmt(sh)} {fmt(rs)}', exn(assign), ('assign', tuple(map(tuple, es)), nt, tuple(sh), tuple(rs)))
+        def assign_ok(ans, ne=ne, nt=nt, sh=tuple(sh)):
+            if ne == 0 and nt > 0:
+                return ans == 'IndexError'
+            try:
+                a = eval(ans.replace(' ', ','))
+            except Exception:
+                return False
+            flat = sorted(x for l in a for x in l)
+            return len(a) == ne and flat == list(range(1, nt + 1)) and all(i + 1 in a[sh[i]] for i in range(min(len(sh), nt)))
+        add(f'assign {fmt(es)} {fmt(list(range(1, nt + 1)))} {fmt(sh)} {fmt(rs)}', exn(assign), ('assign', tuple(map(tuple, es)), nt, tuple(sh), tuple(rs)), assign_ok)
         add(f'idle {fmt(es)}', fmt(idle), ('idle', tuple(map(tuple, es))))
-    return lines, impl, keys
+    return lines, impl, keys, refs
+
+
+# --------------------------------------------------------------------------
+# manager topology: oracle-only probe on real Manager + DetachedServer objects
+# (no Coq model of the tree; node-level theorems only - see coq/rt/SchedNode.v)
+# --------------------------------------------------------------------------
+D14_SIG = dict(call='send_up_or_schedule_tasks', symptom='update_counts_idle_workers_not_tasks_kept')
+
+
+class TreeWorld:
+    """server -> nm managers -> nw workers each; FIFO channel per direction per link."""
+
+    def __init__(self, nm, nw):
+        from bqskit.ir.circuit import Circuit  # noqa: F401
+        from bqskit.runtime.base import RuntimeEmployee
+        from bqskit.runtime.detached import DetachedServer
+        from bqskit.runtime.manager import Manager
+        self.nm, self.nw = nm, nw
+        S = DetachedServer.__new__(DetachedServer)
+        S.lower_id_bound, S.upper_id_bound, S.running = 0, 2 ** 30, True
+        S.employees, S.conn_to_employee_dict, S.outgoing = [], {}, FakeQueue()
+        S.clients, S.tasks, S.mailbox_to_task_dict, S.mailboxes, S.mailbox_counter = {}, {}, {}, {}, 0
+        S.step_size = (S.upper_id_bound - S.lower_id_bound) // nm          # connect_to_managers
+        self.S, self.M = S, []
+        for i in range(nm):
+            lb = S.lower_id_bound + i * S.step_size
+            ub = min(S.lower_id_bound + (i + 1) * S.step_size, S.upper_id_bound)
+            c = Conn(('S', i))
+            e = RuntimeEmployee(i, c, nw, is_manager=True)
+            S.employees.append(e)
+            S.conn_to_employee_dict[c] = e
+            m = Manager.__new__(Manager)
+            m.lower_id_bound, m.upper_id_bound, m.running = lb, ub, True
+            m.employees, m.conn_to_employee_dict, m.outgoing = [], {}, FakeQueue()
+            m.upstream = Conn(('up', i))
+            for j in range(nw):
+                cw = Conn((i, j))
+                ew = RuntimeEmployee(lb + j, cw, 1)
+                m.employees.append(ew)
+                m.conn_to_employee_dict[cw] = ew
+            m.step_size, m.total_workers, m.num_idle_workers = 1, nw, nw
+            m.last_num_idle_sent_up, m.most_recent_read_submit = nw, None
+            self.M.append(m)
+        S.total_workers = S.num_idle_workers = nm * nw
+        self.sm = [[] for _ in range(nm)]
+        self.ms = [[] for _ in range(nm)]
+        self.mw = [[[] for _ in range(nw)] for _ in range(nm)]
+        self.wm = [[[] for _ in range(nw)] for _ in range(nm)]
+        self.wk = [[SimWorker(self.M[i].lower_id_bound + j) for j in range(nw)] for i in range(nm)]
+        self.received = {}          # tid -> number of times a worker received it
+        self.submitted = []
+
+    def flush(self):
+        for c, msg, p in self.S.outgoing.drain():
+            self.sm[c.idx[1]].append((msg, p))
+        for i, m in enumerate(self.M):
+            for c, msg, p in m.outgoing.drain():
+                if c is m.upstream:
+                    self.ms[i].append((msg, p))
+                else:
+                    self.mw[i][c.idx[1]].append((msg, p))
+
+    def nodes(self):
+        return [('server', self.S)] + [(f'manager{i}', m) for i, m in enumerate(self.M)]
+
+    def bounds(self):
+        out = []
+        for name, nd in self.nodes():
+            tot = 0
+            for k, e in enumerate(nd.employees):
+                tot += e.num_idle_workers
+                if not (0 <= e.num_idle_workers <= e.total_workers):
+                    out.append((dict(call='tree_idle_bounds'), f'0..{e.total_workers}', e.num_idle_workers, f'{name} employee {k}: idle count out of bounds'))
+                if e.num_tasks < 0:
+                    out.append((dict(call='tree_num_tasks', symptom='negative'), '>= 0', e.num_tasks, f'{name} employee {k}: task count negative'))
+            if nd.num_idle_workers != tot or not (0 <= nd.num_idle_workers <= nd.total_workers):
+                out.append((dict(call='tree_idle_sum'), tot, nd.num_idle_workers, f'{name}: idle count is not the sum / out of bounds'))
+        return out
+
+    def quiet(self):
+        return not any(self.sm) and not any(self.ms) and not any(q for r in self.mw for q in r) and not any(q for r in self.wm for q in r) \
+            and all(k.blocked and not k.held for r in self.wk for k in r)
+
+
+def tree_run(rng, nm, nw, nroots, max_steps=600):
+    """Random cancel-free schedule on the tree; returns (log, findings)."""
+    from bqskit.runtime.message import RuntimeMessage as M
+    from bqskit.runtime.direction import MessageDirection as Dn
+    from bqskit.runtime.task import RuntimeTask
+    W = TreeWorld(nm, nw)
+    log, findings = [], []
+    prog, kids, parent, mbox = {}, {}, {}, {}
+
+    def new_task(owner, slot, anc, depth):
+        mb = mbox.get(owner, 0)
+        if slot == 0:
+            mbox[owner] = mb + 1
+        from bqskit.runtime.address import RuntimeAddress
+        addr = RuntimeAddress(owner, mb, slot)
+        t = RuntimeTask((_body, (), {}), addr, 0, tuple(anc))
+        prog[addr] = [rng.choice([1, 2, 3]) for _ in range(rng.choice([0, 1, 1, 2]))] if depth < 2 else []
+        kids[addr] = 0
+        W.submitted.append(addr)
+        return t
+
+    def guarded(what, fn):
+        try:
+            fn()
+            return True
+        except Exception as ex:   # noqa
+            findings.append((dict(call='tree_handler', symptom=type(ex).__name__), 'no exception', f'{type(ex).__name__}: {ex}', f'{what} raised'))
+            return False
+
+    roots = nroots
+    for step in range(max_steps):
+        W.flush()
+        findings += W.bounds()
+        if findings:
+            break
+        moves = []
+        if roots > 0:
+            moves.append(('root',))
+        for i in range(nm):
+            if W.sm[i]:
+                moves += [('M<-S', i)] * 2
+            if W.ms[i]:
+                moves += [('S<-M', i)] * 2
+            for j in range(nw):
+                if W.mw[i][j]:
+                    moves += [('w<-M', i, j)] * 2
+                if W.wm[i][j]:
+                    moves += [('M<-w', i, j)] * 2
+                k = W.wk[i][j]
+                if k.blocked:
+                    continue
+                run = False
+                for t in k.held:
+                    a = t.unique_id
+                    if prog[a]:
+                        moves.append(('spawn', i, j, a))
+                        run = True
+                    elif kids[a] == 0:
+                        moves.append(('fin', i, j, a))
+                        run = True
+                if not run:
+                    moves.append(('idle', i, j))
+        if not moves:
+            break
+        mv = rng.choice(moves)
+        log.append([str(x) for x in mv])
+        k0 = mv[0]
+        if k0 == 'root':
+            roots -= 1
+            t = new_task(-1, 0, (), 0)
+            if not guarded('server.schedule_tasks', lambda: W.S.schedule_tasks([t])):
+                break
+        elif k0 == 'M<-S':
+            msg, p = W.sm[mv[1]].pop(0)
+            m = W.M[mv[1]]
+            if not guarded(f'manager.handle_message({msg.name} from above)', lambda: m.handle_message(msg, Dn.ABOVE, m.upstream, p)):
+                break
+        elif k0 == 'S<-M':
+            msg, p = W.ms[mv[1]].pop(0)
+            if not guarded(f'server.handle_message({msg.name})', lambda: W.S.handle_message(msg, Dn.BELOW, W.S.employees[mv[1]].conn, p)):
+                break
+        elif k0 == 'M<-w':
+            _, i, j = mv
+            msg, p = W.wm[i][j].pop(0)
+            m = W.M[i]
+            if not guarded(f'manager.handle_message({msg.name} from below)', lambda: m.handle_message(msg, Dn.BELOW, m.employees[j].conn, p)):
+                break
+        elif k0 == 'w<-M':
+            _, i, j = mv
+            msg, p = W.mw[i][j].pop(0)
+            k = W.wk[i][j]
+            if msg == M.SUBMIT_BATCH:
+                k.mrrs = p[0].unique_id
+                k.held += list(p)
+                k.blocked = False
+                for t in p:
+                    W.received[t.unique_id] = W.received.get(t.unique_id, 0) + 1
+            elif msg == M.SUBMIT:
+                k.mrrs = p.unique_id
+                k.held.append(p)
+                k.blocked = False
+                W.received[p.unique_id] = W.received.get(p.unique_id, 0) + 1
+            elif msg == M.RESULT:
+                par = parent.get(getattr(p, '_child', None))
+                if par is not None and kids[par] > 0:
+                    kids[par] -= 1
+                    if kids[par] == 0:
+                        k.blocked = False
+        elif k0 == 'spawn':
+            _, i, j, a = mv
+            nk = prog[a].pop(0)
+            k = W.wk[i][j]
+            held = [t for t in k.held if t.unique_id == a][0]
+            anc = tuple(held.breadcrumbs) + (a,)
+            ts = [new_task(k.wid, s_, anc, len(anc)) for s_ in range(nk)]
+            mbox[k.wid] = mbox.get(k.wid, 0) + 1
+            for t in ts:
+                parent[t.unique_id] = a
+            kids[a] += nk
+            W.wm[i][j].append((M.SUBMIT, ts[0]) if nk == 1 and rng.random() < 0.5 else (M.SUBMIT_BATCH, ts))
+        elif k0 == 'fin':
+            _, i, j, a = mv
+            k = W.wk[i][j]
+            t = [x for x in k.held if x.unique_id == a][0]
+            k.held.remove(t)
+            if t.return_address.worker_id == k.wid:
+                par = parent.get(a)
+                if par is not None and kids[par] > 0:
+                    kids[par] -= 1
+                W.wm[i][j].append((M.UPDATE, -1))
+            else:
+                W.wm[i][j].append((M.RESULT, tagged_result(t.return_address, 'r', k.wid, a)))
+        elif k0 == 'idle':
+            _, i, j = mv
+            k = W.wk[i][j]
+            W.wm[i][j].append((M.WAITING, (1, k.mrrs)))
+            k.blocked = True
+    W.flush()
+    if not findings and W.quiet():
+        for a in W.submitted:
+            if W.received.get(a, 0) != 1:
+                findings.append((dict(call='tree_assign_once'), 1, W.received.get(a, 0), f'task {tuple(a)} reached {W.received.get(a, 0)} workers'))
+        for name, nd in W.nodes():
+            for k, e in enumerate(nd.employees):
+                if e.num_idle_workers != e.total_workers:
+                    findings.append((dict(call='tree_quiescent', symptom='idle'), e.total_workers, e.num_idle_workers, f'{name} employee {k}: not believed idle at quiescence'))
+                if e.num_tasks != 0:
+                    findings.append((dict(D14_SIG), 0, e.num_tasks, f'{name} employee {k}: num_tasks not zero at quiescence (cancel-free, manager topology)'))
+    return log, findings, W.quiet()
 
 
 # --------------------------------------------------------------------------
@@ -1001,6 +1275,8 @@ SCENARIOS_THOROUGH = [
     Scenario('root maps 2 twice', 2, [[('map', 2, []), ('map', 2, [])]]),
     Scenario('two roots each mapping 2', 2, [[('map', 2, [])], [('map', 2, [])]]),
     Scenario('three workers, map of 3', 3, [[('map', 3, [])]]),
+    Scenario('three workers, two roots, one maps 2', 3, [[('map', 2, [])], []]),
+    Scenario('nested: map of 2, each child submits', 2, [[('map', 2, [('sub', [])])]]),
 ]
 
 
@@ -1011,7 +1287,8 @@ def run(ctx: vf.Ctx):
                 'batches of size below/equal/above the idle count, nested submit/map to depth 2, realistic and adversarial '
                 'worker timing (WAITING crossing SUBMIT_BATCH), with and without cancellation, ~12% not-enabled events; '
                 '(b) exhaustive interleavings (state-deduplicated DFS incl. every shuffle) of small scenarios on 2 workers; '
-                '(c) random inputs to the translated arithmetic vs the real methods. After every event: all counters, caches '
+                '(c) random inputs to the translated arithmetic vs the real methods and a textbook oracle; (d) oracle-only random schedules on '
+                'real Manager + DetachedServer objects (1-3 managers x 1-3 workers). After every event: all counters, caches '
                 'and channels compared with the extracted model, and the property oracle evaluated on the real fields. '
                 'non-trivial = at least one SUBMIT_BATCH was scheduled; distinct by event list')
     ctx.assumptions += [
@@ -1024,7 +1301,7 @@ def run(ctx: vf.Ctx):
     ctx.trusted = ['Coq 8.16.1 kernel', 'ExtrOcamlBasic extraction, OCaml 4.13.1, coq/extract/sched_driver.ml',
                    'harness/gen/gen_sched.py (Python ast -> Gallina printer) and coq/rt/SchedPre.v (Python slice/index semantics; validated by direct correspondence)',
                    'harness/props/c15.py simulated workers + ground-truth oracle']
-    have_model = bool(ctx.extract_ok.get('sched')) and vf.vo_ok('rt/Sched.v')
+    have_model = bool(ctx.extract_ok.get('sched')) and vf.vo_ok('rt/Sched.v') and not ctx.translator_errors
     if not have_model:
         ctx.broken_obligation('extracted scheduler model unavailable: correspondence not checked (oracle-only run)', ctx.build_log[-1500:])
     broken = bool(ctx.broken)
@@ -1039,7 +1316,7 @@ def run(ctx: vf.Ctx):
         ctx.count('corpus')
 
     # ---- random schedules --------------------------------------------------
-    nrand = ctx.n(260, 4000) * scale
+    nrand = ctx.n(260, 12000) * scale
     for i in range(nrand):
         rng = pyrandom.Random(ctx.rng.getrandbits(48))
         n = rng.choice([1, 2, 2, 3, 3, 4])
@@ -1067,6 +1344,9 @@ def run(ctx: vf.Ctx):
         ctx.case((n, cls, lb, evs), nontrivial=bool(w.sent))
         for e in evs:
             ctx.count('ev_' + e[0])
+        if mo is not None:
+            ctx.count('events_not_enabled', sum(1 for x in mo if x == 'DISABLED'))
+            ctx.count('events_enabled', sum(1 for x in mo if x.startswith('OK')) - 1)
         if w.quiescent():
             nquies += 1
         if len(ctx.samples) < 3 and w.sent and len(evs) < 30:
@@ -1097,27 +1377,68 @@ def run(ctx: vf.Ctx):
     ctx.cov['exhaustive'] = ex_stats
 
     # ---- generated arithmetic vs the real methods ---------------------------------
-    alines, aimpl, akeys = arith_cases(ctx, ctx.n(400, 6000) * scale)
+    alines, aimpl, akeys, arefs = arith_cases(ctx, ctx.n(400, 20000) * scale)
     aout = vf.run_model('sched', alines) if have_model else None
     for i, (ln, iv, key) in enumerate(zip(alines, aimpl, akeys)):
         ctx.case(key, nontrivial=True)
         ctx.count('arith_' + key[0])
-        if aout is not None and aout[i] != iv:
+        ref = arefs[i]
+        verdict = (ref(iv) if callable(ref) else ref == iv) if ref is not None else True
+        if verdict == 'D14':
+            ctx.count('obs_D14_manager_update_announces_idle_count')
+            verdict = True
+        if not verdict:
+            ctx.violation(dict(call='arith-oracle', fn=key[0]), dict(query=ln), 'textbook value' if callable(ref) else ref, iv,
+                          f'{key[0]}: the implementation differs from the textbook definition')
+        elif aout is not None and aout[i] != iv:
             ctx.violation(dict(call='arith-mismatch', fn=key[0]), dict(query=ln), aout[i], iv,
                           f'translated {key[0]} and the real method disagree', kind='correspondence',
                           corr='coq/gen/SchedArith.v (+ rt/SchedPre.v) vs bqskit/runtime')
+    # ---- manager topology probe (oracle only) ----------------------------------------
+    tstats = dict(runs=0, quiescent=0, obs_idle_stale_at_quiescence=0, obs_num_tasks_drift_at_quiescence=0, examples=[])
+    for i in range(ctx.n(120, 8000) * scale):
+        rng = pyrandom.Random(ctx.rng.getrandbits(48))
+        nm, nw, nr = rng.choice([1, 2, 3]), rng.choice([1, 2, 3]), rng.choice([1, 2, 3])
+        seed = rng.getrandbits(32)
+        log, fnd, quiet = tree_run(pyrandom.Random(seed), nm, nw, nr)
+        tstats['runs'] += 1
+        tstats['quiescent'] += int(quiet)
+        ctx.case(('tree', nm, nw, nr, seed), nontrivial=len(log) > 5)
+        ctx.count(f'tree_managers={nm}_workers={nw}')
+        seen_obs = set()
+        for sig, exp, obs, what in fnd:
+            if sig == D14_SIG or sig == dict(call='tree_quiescent', symptom='idle'):
+                key = 'obs_num_tasks_drift_at_quiescence' if sig == D14_SIG else 'obs_idle_stale_at_quiescence'
+                if key not in seen_obs:
+                    seen_obs.add(key)
+                    tstats[key] += 1
+                    if len([e for e in tstats['examples'] if e['kind'] == key]) < 1:
+                        tstats['examples'].append(dict(kind=key, managers=nm, workers=nw, roots=nr, seed=seed, what=what))
+                continue
+            ctx.violation(sig, dict(tree=dict(managers=nm, workers=nw, roots=nr, seed=seed), events=log), exp, obs,
+                          what + ' [manager topology probe]')
+    ctx.cov['manager_topology_probe'] = tstats
+
     ctx.cov['theorems_over_generated_code'] = [
         'get_num_of_tasks_sent_since', 'handle_waiting', 'is_my_worker', 'get_employee_responsible_for', 'ctm_step_size/ctm_lb/ctm_ub',
         'sw_w_id/sw_insufficient', 'assign_num_remaining/assign_remaining_tasks', 'schedule_body', 'send_up_or_schedule_tasks',
         'update_upstream_idle_workers', 'manager_handle_update', 'manager_handle_result_from_below', 'server_handle_update',
         'server_handle_result_count']
-    ctx.cov['uncovered'] = ['manager topology as a transition system (node-local theorems only)',
+    ctx.cov['uncovered'] = ['manager topology as a transition system (node-local theorems + oracle-only probe)',
                             'AttachedServer/DetachedServer client tables (C13)', 'real Worker threads (C07)']
 
 
 def replay(ctx, data):
     ctx.uses_translators = BUILD['translators']
     case = data['case']
+    if 'tree' in case:
+        t = case['tree']
+        log, fnd, quiet = tree_run(pyrandom.Random(t['seed']), t['managers'], t['workers'], t['roots'])
+        for sig, exp, obs, what in fnd:
+            print('tree probe:', sig, what, 'expected', exp, 'observed', obs)
+            if sig != D14_SIG and sig != dict(call='tree_quiescent', symptom='idle'):
+                ctx.violation(sig, case, exp, obs, what)
+        return
     if 'query' in case:
         out = vf.run_model('sched', [case['query']])
         print('model:', out[0], ' recorded implementation answer:', data.get('observed'))
